@@ -1,5 +1,6 @@
 """Shared driver for the parser-family checks (C01, C02, C03, C04, C07, C18): run the parser scenarios
 in parallel with a selected set of oracles and assemble coverage."""
+import os
 import time
 
 from mc import parser_engine as E, scenarios as S, pool, words
@@ -49,10 +50,16 @@ POSTS = {"c07removal": E.post_c07_removal, "c18suffix": E.post_c18_suffix, "c04"
 
 def make_tasks(tier, seed, oracles, layouts=(), layout_depth=2, budget_s=None, post=None, base_layout="space", **kw):
     tasks = []
+    # thorough runs are bounded by a wall-clock budget: a task that hits it stops at a completed depth and is reported
+    # under coverage.caps_hit (a capped run is never called exhaustive)
+    if budget_s is None and tier == "thorough":
+        budget_s = float(os.environ.get("VERIF_THOROUGH_BUDGET_S", "720"))
+    deadline_abs = time.time() + budget_s if budget_s else None
     for name, args, depth, split in plan(tier, **kw):
         scn = getattr(S, "scn_" + name)(*args)
         base = dict(scn=name, args=args, depth=depth, oracles=list(oracles), layouts=list(layouts),
-                    layout_depth=layout_depth, seed=seed, budget_s=budget_s, first=None, post=post, base_layout=base_layout)
+                    layout_depth=layout_depth, seed=seed, budget_s=budget_s, first=None, post=post, base_layout=base_layout,
+                    deadline_abs=deadline_abs)
         if split and depth >= 3:
             sig = list(scn["sigma"])
             # 1 task per first symbol
@@ -82,7 +89,7 @@ def audit_tasks(tier, seed, oracles):
 def task(t):
     scn = getattr(S, "scn_" + t["scn"])(*t["args"])
     orcs = [ORACLES[o] for o in t["oracles"]]
-    deadline = time.time() + t["budget_s"] if t.get("budget_s") else None
+    deadline = t.get("deadline_abs") or (time.time() + t["budget_s"] if t.get("budget_s") else None)
     st, viols = E.bfs(scn, t["depth"], orcs, layouts=t["layouts"], layout_depth=t["layout_depth"],
                       order_seed=t["seed"], first_symbols=t["first"], deadline=deadline,
                       post=POSTS[t["post"]] if t.get("post") else None, base_layout=t.get("base_layout", "space"),
